@@ -10,10 +10,10 @@ pub open spec fn wf_rx(r: &PriorityReceiver) -> bool { r.normal.which == 2 && r.
 pub open spec fn wf_tx(r: &PrioritySender) -> bool { r.normal.which == 2 && r.high.which == 1 && r.urgent.which == 0 }
 pub open spec fn timer_expired(t: Option<Timer>, now: nat) -> bool { t is Some && t->Some_0.until.t <= now }
 // exactly one queue lost exactly its head `id` (after arrivals); the other two only grew at the tail
-pub open spec fn popped_from(a: Seq<int>, b: Seq<int>, id: int) -> bool {
-    exists|mid: Seq<int>| #![auto] is_prefix_grown(a, mid) && mid.len() > 0 && mid[0] == id && b == mid.subrange(1, mid.len() as int)
+pub open spec fn popped_from(a: Seq<ControlMessage>, b: Seq<ControlMessage>, id: ControlMessage) -> bool {
+    exists|mid: Seq<ControlMessage>| #![auto] is_prefix_grown(a, mid) && mid.len() > 0 && mid[0] == id && b == mid.subrange(1, mid.len() as int)
 }
-pub open spec fn popped_head(pre: &Env, post: &Env, id: int) -> bool {
+pub open spec fn popped_head(pre: &Env, post: &Env, id: ControlMessage) -> bool {
     (popped_from(pre.urgent@, post.urgent@, id) && is_prefix_grown(pre.high@, post.high@) && is_prefix_grown(pre.normal@, post.normal@))
     || (popped_from(pre.high@, post.high@, id) && is_prefix_grown(pre.urgent@, post.urgent@) && is_prefix_grown(pre.normal@, post.normal@))
     || (popped_from(pre.normal@, post.normal@, id) && is_prefix_grown(pre.urgent@, post.urgent@) && is_prefix_grown(pre.high@, post.high@))
@@ -234,17 +234,11 @@ pub open spec fn c09_set_hooks(ov: JobView, fv: JobView, pre: &Env, post: &Env, 
     n_of(pre, post) == 0 && fv == (JobView { eh, sh, ..ov })
 }
 
-// a respawn was attempted in this step: the log delta contains a spawn-hook call
-pub open spec fn attempted_respawn(pre: &Env, post: &Env) -> bool {
-    exists|k: int| 0 <= k < n_of(pre, post) && #[trigger] at(pre, post, k) is Hook
-}
-
-// exactly one entry was appended to the log
-pub open spec fn pushed1(pre: &Env, post: &Env) -> bool { post.log@ == pre.log@.push(post.log@[pre.log@.len() as int]) }
-
 // the running process of `v` ended in this step: its exit status was collected
 pub open spec fn reaped_in(pre: &Env, post: &Env, v: CsV) -> bool {
-    v is Running && exists|k: int| 0 <= k < n_of(pre, post) && is_wait(#[trigger] at(pre, post, k), running_cid(v), true)
+    // the successful wait is the first effect (child-ended arm) or directly follows the kill (Stop / TryRestart / Continue arms)
+    v is Running && ((n_of(pre, post) >= 1 && is_wait(at(pre, post, 0), running_cid(v), true))
+                  || (n_of(pre, post) >= 2 && is_wait(at(pre, post, 1), running_cid(v), true)))
 }
 
 // The running process ended by itself (select arm 1). From the docs: `to_wait` tickets resolve when the command ends; a pending
@@ -265,3 +259,34 @@ pub open spec fn c09_child_ended(ov: JobView, fv: JobView, pre: &Env, post: &Env
             && respawn_seq(pre, post, 1, n_of(pre, post), command, fv.prev, fv.cs)
         })
 }
+
+// ---- the sender side ------------------------------------------------------------------------------------
+pub open spec fn priority_normal() -> Priority { Priority::Normal }
+pub open spec fn priority_high() -> Priority { Priority::High }
+pub open spec fn priority_urgent() -> Priority { Priority::Urgent }
+pub open spec fn qp(env: &Env, p: Priority) -> Seq<ControlMessage> {
+    match p { Priority::Normal => env.normal@, Priority::High => env.high@, Priority::Urgent => env.urgent@ }
+}
+// exactly the controls `ctls`, in that order, were appended to the queue of priority p, each with a so-far unraised flag; nothing else changed
+pub open spec fn sent(pre: &Env, post: &Env, p: Priority, ctls: Seq<Control>) -> bool {
+    qp(post, p).len() == qp(pre, p).len() + ctls.len()
+    && qp(post, p).subrange(0, qp(pre, p).len() as int) =~= qp(pre, p)
+    && (forall|i: int| 0 <= i < ctls.len() ==> (#[trigger] qp(post, p)[qp(pre, p).len() + i]).control == ctls[i])
+    && (forall|i: int| 0 <= i < ctls.len() ==> !pre.raised@.contains((#[trigger] qp(post, p)[qp(pre, p).len() + i]).done.id))
+    && (!(p is Normal) ==> post.normal == pre.normal) && (!(p is High) ==> post.high == pre.high) && (!(p is Urgent) ==> post.urgent == pre.urgent)
+    && same_world(pre, post) && post.now == pre.now
+}
+pub open spec fn ticket_for(t: Ticket, job: &Job, m: ControlMessage) -> bool { t.control_done.id == m.done.id && t.job_gone.id == job.gone.id }
+// what every Job method does (docs of `Job`): on a dead job nothing is sent and the ticket is already resolved; otherwise the controls are
+// queued in order with one priority and the ticket is that of the LAST control (so awaiting it implies all earlier ones ran: C10)
+pub open spec fn job_sends(job: &Job, pre: &Env, post: &Env, p: Priority, ctls: Seq<Control>, t: Ticket) -> bool {
+    if ctls.len() == 0 || pre.raised@.contains(job.gone.id) {
+        post.normal == pre.normal && post.high == pre.high && post.urgent == pre.urgent && post.log == pre.log && post.live == pre.live && post.now == pre.now
+        && post.raised@.contains(t.control_done.id) && post.raised@.contains(t.job_gone.id)
+    } else {
+        sent(pre, post, p, ctls) && ticket_for(t, job, qp(post, p).last())
+    }
+}
+
+// exactly one entry was appended to the log
+pub open spec fn pushed1(pre: &Env, post: &Env) -> bool { post.log@ == pre.log@.push(post.log@[pre.log@.len() as int]) }
